@@ -405,26 +405,35 @@ theorem NP_resultRows (O : Oracles) (q : AggStmt) (groups : GroupMap Value) (see
       · rfl
     · repeat' (first | exact ih' _ | exact NP_bind (ih' _) (fun _ => NP_pure _) | split)
 
-theorem NP_checkRows (O : Oracles) (q : AggStmt) (groups : GroupMap Value) (u : Unit)
-    (hlen : KeysLen (keyLen q) groups) (hg : groups ≠ [] → GoodKeys q) :
-    NP (groups.foldlM (fun (_ : Unit) (g : List Value × List (Nat × Value)) => do
-        let _ ← rowOf O q g.1 g.2 (enumFrom 0 q.items)
-        pure ()) u : Outcome Unit) := by
-  induction groups generalizing u with
+theorem NP_aggColumn (O : Oracles) (q : AggStmt) (i : Nat) (item : AggItem) (hitem : item ∈ q.items) (groups : GroupMap Value)
+    (hlen : KeysLen (keyLen q) groups) (hg : groups ≠ [] → GoodKeys q) : NP (aggColumn O q i item groups) := by
+  induction groups with
   | nil => rfl
   | cons g rest ih =>
+    obtain ⟨key, subs⟩ := g
     have hgk : GoodKeys q := hg (by simp)
-    simp only [List.foldlM_cons]
-    apply NP_bind
-    · exact NP_bind (NP_rowOf O q g.1 g.2 _ (items_enum q) hgk (hlen g List.mem_cons_self)) (fun _ => NP_pure _)
-    · intro _
-      exact ih _ (fun x hx => hlen x (List.mem_cons_of_mem _ hx)) (fun _ => hgk)
+    unfold aggColumn
+    refine NP_bind (NP_cellOf O q i item key subs hitem hgk (hlen (key, subs) List.mem_cons_self)) (fun _ => ?_)
+    exact NP_bind (ih (fun x hx => hlen x (List.mem_cons_of_mem _ hx)) (fun _ => hgk)) (fun _ => rfl)
+
+/-- the column pass of `execute_result` (`extract_result_rows_by_column`) -/
+theorem NP_checkRows (O : Oracles) (q : AggStmt) (groups : GroupMap Value) (items : List (Nat × AggItem))
+    (hitems : ∀ p ∈ items, p.2 ∈ q.items)
+    (hlen : KeysLen (keyLen q) groups) (hg : groups ≠ [] → GoodKeys q) :
+    NP (aggColumns O q groups items) := by
+  induction items with
+  | nil => rfl
+  | cons p rest ih =>
+    obtain ⟨i, item⟩ := p
+    unfold aggColumns
+    refine NP_bind (NP_aggColumn O q i item (hitems (i, item) List.mem_cons_self) groups hlen hg) (fun _ => ?_)
+    exact NP_bind (ih (fun p hp => hitems p (List.mem_cons_of_mem _ hp))) (fun _ => rfl)
 
 theorem NP_aggResult (O : Oracles) (q : AggStmt) (st : AggState) (hi : Inv q st) : NP (aggResult O q st) := by
   have hp := publish_inv hi
   unfold aggResult
   simp only
-  refine NP_bind (NP_checkRows O q _ () hp.vals (fun h => hp.good (Or.inl h))) (fun _ => ?_)
+  refine NP_bind (NP_checkRows O q _ _ (items_enum q) hp.vals (fun h => hp.good (Or.inl h))) (fun _ => ?_)
   exact NP_bind (NP_resultRows O q _ [] hp.vals (fun h => hp.good (Or.inl h))) (fun _ => rfl)
 
 theorem aggResult_inv {O : Oracles} {q : AggStmt} {st st' : AggState} {out : RowOut}
